@@ -93,6 +93,10 @@ def _check_case(case):
     meta = case.get('meta', {})
     o = observe.run_validator(text, ack=False, html=True)
     out.classes = ['map:' + meta.get('file', '?'), 'faults:%d' % len(meta.get('faults', []))]
+    if meta.get('placement', 'free') != 'free':
+        out.classes.append('fault-placement:' + meta['placement'])
+    if meta.get('ngroups', 0) > 1 and meta.get('nsets', 0) > meta.get('ngroups', 0):
+        out.classes.append('several-groups-of-several-sets')
     out.key = text
     if o.exc is not None:
         out.classes.append('did-not-complete')
@@ -193,7 +197,7 @@ def run_entry(entry, n, seed, acc, tier):
         avoid = '~*:^' + ''.join(dl)
         res = genfaulty.build(entry, ch, acc, max_faults=5, avoid=avoid, flavor='markup' if mode != 'plain' else 'plain', envelope=.2,
                               hostile_values=[m for m in MARKERS if not any(c in m for c in dl)] if mode == 'markup-values' else None,
-                              shapes=[(1, 1, 1), (1, 1, 2), (1, 2, 1), (2, 1, 1)], keep_empty_tail=.3)
+                              shapes=[(1, 1, 1), (1, 1, 2), (1, 2, 1), (2, 1, 1), (1, 2, 3), (1, 2, 2), (1, 3, 2)], keep_empty_tail=.3, by_set=.3, twin_sets=.06)
         if res is None:
             return {'skip': 'genfail'}
         doc, exps = res
